@@ -598,7 +598,7 @@ class TagTool(cli.CommandLineInterface):
                 return True
 
         tag.add_service(0x0009, ndef_read, ndef_write)
-        tag.add_service(0x000B, ndef_read, lambda: False)
+        tag.add_service(0x000B, ndef_read, None)
         return True
 
 
